@@ -56,7 +56,15 @@ def check_file(ctx, r, idx, ml, bd_path):
 		ddf = data_dump.DATADumpFile(bio)
 	objs = [msgs.to_real(m) for m in ml]
 	try:
-		if r.random() < 0.5:
+		if by_path and n >= 2 and r.random() < 0.5:
+			# written in two sessions: the capture is re-opened by path and appended to
+			k = r.randrange(1, n)
+			ddf.append_all(objs[:k])
+			ddf.f.close()
+			ddf = data_dump.DATADumpFile(path)
+			ddf.append_all(objs[k:])
+			ctx.count("files_reopened_and_appended")
+		elif r.random() < 0.5:
 			ddf.append_all(objs)
 		else:
 			for o in objs:
